@@ -247,7 +247,8 @@ PROPS = {
             "thorough": [
                 ("hooksq", C(Tasks=["t1"], InitMax=2, Budget=6, NPre=1, NPost=1, NPc=1, ThreadLevel=False, AllowRetain=True), True),
                 ("threadq", C(InitMax=1, Budget=4, NPost=1, AsyncPost=[1]), True),
-                ("hooks", C(InitMax=2, Budget=6, NPre=1, NPost=1, NPc=1, ThreadLevel=False, AllowRetain=True), True),
+                # (two tasks and 6 operations with all hook kinds are 13.7 M states: too much for the tour generator)
+                ("hooks", C(InitMax=2, Budget=5, NPre=1, NPost=1, NPc=1, ThreadLevel=False), True),
                 ("thread", C(InitMax=2, Budget=4, NPost=1, AsyncPost=[1], NPre=1), True),
             ],
         },
